@@ -127,6 +127,13 @@ def check_interval(case):
             diffs.append(C.D("split-symexpr-moved", got=sx, **roles))
         if tb != [0x1000 + case["ann"]]:
             diffs.append(C.D("split-table-entry-moved", got=tb, **roles))
+        # ... and stay inside the interval that now holds the byte they annotate (the last interval
+        # also owns trailing positions)
+        for pi, p_ in enumerate(parts):
+            last = pi == len(parts) - 1
+            for o in list(p_.symbolic_expressions) + [k.displacement for k in tbl if k.element_id is p_]:
+                if o < 0 or (o >= p_.size and not (last or p_.size == 0 and o == 0)):
+                    diffs.append(C.D("split-annotation-outside-its-interval", off=o, size=p_.size, **roles))
     if diffs:
         return "split-diff", diffs
     # ---- join
